@@ -38,7 +38,44 @@ def install(eng):
             out.append(z3.MultiPattern(*pl) if len(pl) > 1 else pl[0])
         return out
 
+    def auto_patterns(vs, body):
+        """Applications f(.., v, ..) of uninterpreted functions whose argument is exactly a bound variable:
+        plain `view[i]` terms.  One alternative pattern per function (only for single-variable quantifiers)."""
+        if len(vs) != 1:
+            return None
+        v = vs[0]
+        found = {}
+        seen = set()
+        stack = [body]
+        while stack:
+            t = stack.pop()
+            if t.get_id() in seen:
+                continue
+            seen.add(t.get_id())
+            if z3.is_quantifier(t):
+                continue
+            if z3.is_app(t) and t.decl().kind() == z3.Z3_OP_UNINTERPRETED and t.num_args() > 0:
+                if any(a.eq(v) for a in t.children()) and all(a.eq(v) or not _mentions(a, v) for a in t.children()):
+                    found.setdefault(t.decl().name(), t)
+            stack.extend(t.children())
+        return list(found.values()) or None
+
+    def _mentions(t, v):
+        stack = [t]
+        seen = set()
+        while stack:
+            x = stack.pop()
+            if x.get_id() in seen:
+                continue
+            seen.add(x.get_id())
+            if x.eq(v):
+                return True
+            stack.extend(x.children())
+        return False
+
     def mk_forall(vs, body, pats):
+        if not pats:
+            pats = auto_patterns(vs, body)
         if pats:
             try:
                 return z3.ForAll(vs, body, patterns=pats)
@@ -464,6 +501,59 @@ def install(eng):
         stop = adj(en, ev_, v_ite(neg, lower, upper))
         eng.trusted_used.add('slice.indices(n): CPython adjustment rules (PySlice_AdjustIndices), modelled in pyvc/builtins.py')
         return one(st, Tup([simp(start), simp(stop), simp(step)]))
+
+    # ------------------------------------------------ binary file objects (trusted model of io.BytesIO / BufferedReader)
+    # KRec('BinaryIO', data=Bytes, pos=Int): read(n) returns data[pos:pos+n] truncated at EOF and advances,
+    # seek(p) sets the position, tell() returns it.  rd_lo / rd_hi (optional fields) record the read footprint.
+    def _fobj(st, ref):
+        if not isinstance(ref, Ref):
+            raise Unsupported('file method on %r' % (ref,))
+        return st.heap[ref.oid].fields
+
+    @reg('cls:BinaryIO.read')
+    def _f_read(eng, st, args, kw, node):
+        f = _fobj(st, args[0])
+        data, pos = f['data'], f['pos']
+        ln = data.length
+        avail = v_ite(simp(num_cmp('>', ln, pos)), num_binop('-', ln, pos, Pending()), 0)
+        if len(args) < 2 or args[1] is None:
+            k = avail
+        else:
+            n = args[1]
+            k = v_ite(simp(num_cmp('<', n, 0)), avail, v_ite(simp(num_cmp('<', n, avail)), n, avail))
+        k = simp(k)
+        res = v_slice(data, pos, num_binop('+', pos, k, Pending()))
+        res = View(k, res.get, Byte, None, 'bytes')
+        newpos = simp(num_binop('+', pos, k, Pending()))
+        if 'rd_lo' in f:
+            f['rd_lo'] = v_ite(simp(b_and(num_cmp('>', k, 0), num_cmp('<', pos, f['rd_lo']))), pos, f['rd_lo'])
+            f['rd_hi'] = v_ite(simp(b_and(num_cmp('>', k, 0), num_cmp('>', newpos, f['rd_hi']))), newpos, f['rd_hi'])
+        f['pos'] = newpos
+        eng.trusted_used.add('binary file object: read(n) = data[pos:pos+n] truncated at EOF, seek(p) (whence 0), tell(); modelled in pyvc/builtins.py')
+        return one(st, res)
+
+    @reg('cls:BinaryIO.seek')
+    def _f_seek(eng, st, args, kw, node):
+        f = _fobj(st, args[0])
+        if len(args) > 2:
+            raise Unsupported('seek with whence')
+        st = eng.fork_exc(st, num_cmp('>=', args[1], 0), 'ValueError', node)
+        if st.dead:
+            return []
+        _fobj(st, args[0])['pos'] = args[1]
+        return one(st, args[1])
+
+    @reg('cls:BinaryIO.tell')
+    def _f_tell(eng, st, args, kw, node):
+        return one(st, _fobj(st, args[0])['pos'])
+
+    @reg('copy.copy')
+    def _copy(eng, st, args, kw, node):
+        v = args[0]
+        if isinstance(v, Ref):
+            o = st.heap[v.oid]
+            return one(st, st.new_obj(o.cls, dict(o.fields)))
+        return one(st, v)
 
     # ------------------------------------------------ struct (trusted: big/little-endian integer packing)
     import struct as _struct
